@@ -435,6 +435,7 @@ type C02DialsCase struct {
 	ShareDefault []ShareD    `json:"share_default,omitempty"`
 	ShareLayers  []ShareL    `json:"share_layers,omitempty"`
 	ShareWithin  []SharePair `json:"share_within,omitempty"`
+	ShareInMaps  bool        `json:"share_in_maps,omitempty"`
 	ScribbleAt   int         `json:"scribble_at"` // scribble over the version current after this many reports
 }
 
@@ -459,7 +460,7 @@ func genC02Dials(t *rapid.T) C02DialsCase {
 	}
 	sw := genShareWithin(t, nodes, &d)
 	sd, sl := genShares(t, nodes, &d)
-	return C02DialsCase{Data: d, Sources: ns, Src: src, ShareDefault: sd, ShareLayers: sl, ShareWithin: sw, ScribbleAt: rapid.IntRange(0, len(d.Layers)).Draw(t, "scribble_at")}
+	return C02DialsCase{Data: d, Sources: ns, Src: src, ShareDefault: sd, ShareLayers: sl, ShareWithin: sw, ShareInMaps: rapid.Bool().Draw(t, "share_in_maps"), ScribbleAt: rapid.IntRange(0, len(d.Layers)).Draw(t, "scribble_at")}
 }
 
 func runC02Dials(c C02DialsCase) vrt.Verdict {
